@@ -303,6 +303,12 @@ class OutputParser(TraceVisitor):
         nxt = next(self.data)
         if isinstance(nxt, str):
             nxt = int(nxt[::-1], 2)
+        else:
+            import numpy
+
+            if isinstance(nxt, (bool, numpy.bool_)):
+                # the outcomes 0 and 1; as an array index a boolean is a mask
+                nxt = int(nxt)
         mr = Readout(nxt, self.readout_index)
         subcircuit.accept_readout(mr)
         self.res.append(mr)
